@@ -250,11 +250,29 @@ def chk : Sk → List Var → Option AOut
 /-- the whole verdict for a root skeleton: from a state in which no tracked variable holds a block, every
     path ends with no tracked variable holding a block — except under the parameters `esc` through which
     blocks may legitimately leave (`mb` of `BrotliBuildMetaBlockGreedy`) -/
-def balancedEsc (esc : List Nat) (root : Sk) : Bool :=
-  match chk root [] with
+def balancedFrom (m0 : List Var) (esc : List Nat) (root : Sk) : Bool :=
+  match chk root m0 with
   | some ⟨some m, none⟩ => m.all (fun v => match v.head? with | some a => esc.contains a | none => false)
   | some ⟨none, none⟩ => true
   | _ => false
+
+def balancedEsc (esc : List Nat) (root : Sk) : Bool := balancedFrom [] esc root
+
+/-- every place a skeleton names -/
+def varsOf : Sk → List Var
+  | .alloc _ v => [v]
+  | .free _ v => [v]
+  | .move s d => [s, d]
+  | .seq a b => varsOf a ++ varsOf b
+  | .alt a b => varsOf a ++ varsOf b
+  | .loop b => varsOf b
+  | .scope _ b => varsOf b
+  | _ => []
+
+/-- the places that may hold a block when the root is ENTERED: everything the skeleton names under the
+    parameters `inn` (`self` of `StrideEval::update_block_type`: the method is called on a live object) -/
+def entryVars (inn : List Nat) (root : Sk) : List Var :=
+  (varsOf root).filter (fun v => match v.head? with | some a => inn.contains a | none => false)
 
 def balanced (root : Sk) : Bool := balancedEsc [] root
 
